@@ -663,3 +663,159 @@ func RefusingFacts(target ssa.Instruction) []Fact {
 	}
 	return out
 }
+
+// ---- path-sensitive reachability over boolean φ constants ----------------------
+
+// ReachFromTopPS is ReachFromTop with a light path sensitivity: along each explored path the
+// constant values taken by boolean φ-nodes are tracked, and an If whose condition is such a φ
+// (possibly negated) only follows the matching successor. This removes the infeasible paths
+// created by flag variables (`invalid = true ... if invalid {...}`).
+func ReachFromTopPS(f *ssa.Function, start *ssa.BasicBlock, to, avoid map[ssa.Instruction]bool) ssa.Instruction {
+	type state struct {
+		b   *ssa.BasicBlock
+		env string
+	}
+	type item struct {
+		b    *ssa.BasicBlock
+		pred *ssa.BasicBlock
+		env  map[ssa.Value]bool
+	}
+	encode := func(env map[ssa.Value]bool) string {
+		var ks []string
+		for k, v := range env {
+			s := k.Name()
+			if v {
+				s += "=T"
+			} else {
+				s += "=F"
+			}
+			ks = append(ks, s)
+		}
+		sortStrings(ks)
+		out := ""
+		for _, k := range ks {
+			out += k + ";"
+		}
+		return out
+	}
+	seen := map[state]bool{}
+	work := []item{{b: start, env: map[ssa.Value]bool{}}}
+	steps := 0
+	for len(work) > 0 {
+		it := work[len(work)-1]
+		work = work[:len(work)-1]
+		steps++
+		if steps > 20000 {
+			// give up on precision: fall back to the path-insensitive answer
+			return ReachFromTop(f, start, to, avoid)
+		}
+		env := map[ssa.Value]bool{}
+		for k, v := range it.env {
+			env[k] = v
+		}
+		// φ-nodes take the value of the incoming edge
+		if it.pred != nil {
+			idx := -1
+			for i, p := range it.b.Preds {
+				if p == it.pred {
+					idx = i
+				}
+			}
+			for _, in := range it.b.Instrs {
+				phi, ok := in.(*ssa.Phi)
+				if !ok {
+					break
+				}
+				delete(env, phi)
+				if idx < 0 {
+					continue
+				}
+				e := phi.Edges[idx]
+				if bv, ok := boolConst(e); ok {
+					env[phi] = bv
+				} else if kv, ok := it.env[e]; ok {
+					env[phi] = kv
+				}
+			}
+		}
+		st := state{it.b, encode(env)}
+		if seen[st] {
+			continue
+		}
+		seen[st] = true
+		blocked := false
+		for _, in := range it.b.Instrs {
+			if avoid[in] {
+				blocked = true
+				break
+			}
+			if to[in] {
+				return in
+			}
+		}
+		if blocked {
+			continue
+		}
+		succs := it.b.Succs
+		if iff, ok := it.b.Instrs[len(it.b.Instrs)-1].(*ssa.If); ok && len(succs) == 2 {
+			cond := iff.Cond
+			neg := false
+			for {
+				if u, ok := cond.(*ssa.UnOp); ok && u.Op == token.NOT {
+					cond = u.X
+					neg = !neg
+					continue
+				}
+				break
+			}
+			if v, ok := env[cond]; ok {
+				if neg {
+					v = !v
+				}
+				if v {
+					succs = succs[:1]
+				} else {
+					succs = succs[1:]
+				}
+			} else if bv, ok := boolConst(cond); ok {
+				if neg {
+					bv = !bv
+				}
+				if bv {
+					succs = succs[:1]
+				} else {
+					succs = succs[1:]
+				}
+			} else {
+				// learn the branch condition itself when it is a φ or plain bool value
+				for i, s := range succs {
+					e2 := map[ssa.Value]bool{}
+					for k, v := range env {
+						e2[k] = v
+					}
+					val := i == 0
+					if neg {
+						val = !val
+					}
+					if _, isPhi := cond.(*ssa.Phi); isPhi {
+						e2[cond] = val
+					}
+					work = append(work, item{b: s, pred: it.b, env: e2})
+				}
+				continue
+			}
+		}
+		for _, s := range succs {
+			work = append(work, item{b: s, pred: it.b, env: env})
+		}
+	}
+	return nil
+}
+
+func sortStrings(s []string) {
+	for i := 1; i < len(s); i++ {
+		for j := i; j > 0 && s[j] < s[j-1]; j-- {
+			s[j], s[j-1] = s[j-1], s[j]
+		}
+	}
+}
